@@ -19,6 +19,7 @@ type Ctx struct {
 	fieldTypes    map[*types.Var][]types.Type
 	fieldTypesTop map[*types.Var]bool
 	M             *core.Module // the SDK module (schema, atp, plugin)
+	dispatchMemo  map[*ssa.Function]string
 	Gen           *core.Module // the code generator module (nil unless the property needs it)
 	R             *core.Report
 	Tier          string
